@@ -291,10 +291,10 @@ def gen_turn(rng, C, tier):
             s = s[:target] if rng.random() < 0.5 else s
             C.add(pair_case("T %d" % compat, s, rand_cuts(rng, len(s))), "turn-random-segmentation")
         # headers announcing the maximum length
-        for plen in (0xffff, 0xfffe, 0xfffd, 0xfffc, 0xffec, 0xffeb, 0xffe8):
+        for plen in ((0xffff, 0xfffd, 0xffec, 0xffe8) if tier == "quick" else (0xffff, 0xfffe, 0xfffd, 0xfffc, 0xffec, 0xffeb, 0xffe8)):
             for magic in ((0x0001, 0x4000) if compat in (DRAFT9, RFC5766) else (0x0200,)):
                 hdr = (plen.to_bytes(2, "big") if compat == GOOGLE else magic.to_bytes(2, "big") + plen.to_bytes(2, "big"))
-                for total in (plen - 40, 65530, 65536, 65537, 65560, 66000):
+                for total in ((plen - 40, 65536, 65560) if tier == "quick" else (plen - 40, 65530, 65536, 65537, 65560, 66000)):
                     s = hdr + bytes((7 * i + 1) % 256 for i in range(max(0, total)))
                     C.add(pair_case("T %d" % compat, s, rand_cuts(rng, len(s), "few")), "turn-max-length-header")
         # garbage
